@@ -1,5 +1,6 @@
 import Grexv.Props.C09
 import Grexv.Lemmas.EndToEnd
+import Grexv.Lemmas.EndToEndR
 
 /-!
 # C03 — shorthand-class options generalise exactly as documented (conversion level and end to end)
@@ -189,5 +190,34 @@ theorem classes_sound (cfg : Config) (hp : PlainPrint cfg) (env : Env) (ws : Lis
 /-- non-vacuity: `-d` on `["a1"]` gives `a\d` -/
 example : (["a1".toList.map Char.toNat] : List Str).map (fun t => t.map (docAtom { digit := true })) =
     [[Atom.chr 97, Atom.cls .digit false]] := by decide +kernel
+
+/-- **C03 with `-r`, the half "every generalisation is still matched", all inputs** (`-r` with positive thresholds, every subset of
+the class options, case-sensitive, plain printing, any anchors; test cases of at most 1000 graphemes): the returned text is
+accepted by the model of `Regex::new`, and the compiled pattern matches in full every string that generalises a non-empty test case
+in the documented way.  (The other half does not hold with `-r`: known finding D2; what the pattern accepts is exactly what the
+automaton's labels spell, `C05.repetitions_language_exact`.) -/
+theorem classes_sound_with_repetitions (cfg : Config) (hp : RepPrintNA cfg) (hci : cfg.ci = false) (env : Env) (ws : List Str)
+    (st : Stages) (h : regExpFrom cfg env ws = .ok st) (hseg : ∀ w ∈ ws, SegOK env w)
+    (hlen : ∀ w ∈ ws, (clusterOfPieces (env.segOf w)).length ≤ 1000)
+    (t : Str) (ht : t ∈ ws) (hne : t ≠ []) (s : Str) (hsc : ∀ c ∈ s, Scalar c) (hg : Generalises cfg t s) :
+    ∃ P, Spec.parse (fmtRegExp cfg st.finalAst) = some (⟨false, false⟩, P) ∧ Spec.fullMatch false P s = true := by
+  have hlen : ∀ w ∈ ws, (subPieces (env.segOf w)).length ≤ 1000 := fun w hw => by
+    have := hlen w hw; rwa [clusterOfPieces_eq, List.length_map] at this
+  have hst : storedCases cfg env ws = ws := by simp [storedCases, hci]
+  have := rep_end_to_end_na cfg hp env ws st h (by rw [hst]; exact hseg) (by rw [hst]; exact hlen) t (by rw [hst]; exact ht) hne s hsc
+  rw [hci] at this
+  apply this
+  have : ∀ u : Str, u.map (convAtom cfg) = u.map (docAtom cfg) :=
+    fun u => List.map_congr_left (fun c _ => convAtom_documented cfg c)
+  rw [this]
+  exact hg
+
+/-- non-vacuity: `-r -d`, and `a7` generalises `a1` there -/
+example : RepPrintNA { rep := true, digit := true } ∧ Generalises { rep := true, digit := true } [97, 49] [97, 55] := by
+  have e1 : docAtom { rep := true, digit := true } 97 = Atom.chr 97 := by decide +kernel
+  have e2 : docAtom { rep := true, digit := true } 49 = Atom.cls .digit false := by decide +kernel
+  have m1 : Spec.chrMatches false 97 97 = true := by decide +kernel
+  have m2 : (Spec.perlMember .digit 55 != false) = true := by decide +kernel
+  exact ⟨⟨rfl, by decide, rfl, rfl, rfl⟩, ⟨97, [55], rfl, by rw [e1]; exact m1, 55, [], rfl, by rw [e2]; exact m2, rfl⟩⟩
 
 end Grexv.Props.C03
